@@ -20,7 +20,8 @@ pub fn generate(_ctx: &mut Ctx, seed: u64, i: usize, max_blocks: usize) -> Case 
     let mut rng = Rng::new(seed, i as u64);
     let dir = lua_dir();
     let nfiles = 1 + rng.below(3);
-    let total = 1 + rng.below(max_blocks);
+    // the property quantifies over 1..40 scripted blocks: a share of the cases is large in every tier
+    let total = if rng.chance(1, 8) { 30 + rng.below(11) } else { 1 + rng.below(max_blocks) };
     let failing = if rng.chance(1, 3) { 1 + rng.below(3) } else { 0 };
     let mut files = vec![];
     let mut asyncs: Vec<Value> = vec![];
